@@ -98,7 +98,7 @@ REQUIRED = ["op:bytes-unchanged", "op:failure-reported", "op:trace-clean-on-fail
             "D:refused-foreign", "D:region-gbk-removed-on-reuse", "D:path-is-file", "D:path-missing"]
 
 INJECT_MESSAGE = "vf-c20 injected conversion failure"
-QUICK_PAIRS_FOR_TWO_RECORDS = 5
+QUICK_PAIRS_FOR_TWO_RECORDS = 4
 THOROUGH_SAMPLE_PER_SIZE = 40
 
 
@@ -1137,6 +1137,8 @@ def dir_cases(elements_universe, full):
             if not full and beyond and (len(beyond) > 1 or len(subset) > 4):
                 continue        # quick tier: the two added elements only singly, next to <= 3 others
             for inp in D_INPUT:
+                if not full and inp == "file" and len(subset) > 2:
+                    continue    # quick tier: a file merely called 'input' next to <= 2 other elements
                 for mode in D_MODES:
                     for logcfg in D_LOGCFG:
                         if not full and logcfg == "outside" and "log" not in subset:
@@ -1193,13 +1195,13 @@ def _reuse_elsewhere(clause, facts):
 # --------------------------------------------------------------------------------------------
 
 def _compositions(ctx, max_modules_full, max_modules, sample_per_size):
+    """ every ordered composition up to max_modules_full modules, a seeded sample of the larger ones; the sample
+        depends on the seed only (not on the worker: all workers must partition the same list) """
+    import random
     comps = []
     for size in range(0, max_modules_full + 1):
         comps.extend(list(c) for c in itertools.product(MODULE_KINDS, repeat=size))
-    rng = ctx.rng("compositions") if sample_per_size else None
     for size in range(max_modules_full + 1, max_modules + 1):
-        # seeded sample; the same list in every worker (the rng key does not depend on the worker)
-        import random
         rng = random.Random(f"{ctx.seed}/C20/compositions/{size}")
         seen = set()
         while len(seen) < sample_per_size:
@@ -1296,7 +1298,7 @@ def _run(ctx, base, main_module, config_module):
         else:
             if not quick:
                 variants = VARIANTS
-            elif records == 1 or index % 3 == 0:
+            elif index % 2 == 0:
                 variants = VARIANTS[:2] + [VARIANTS[2 + index % 4]]
             else:
                 variants = VARIANTS[:2]
